@@ -173,64 +173,84 @@ Proof.
   repeat split; try lia; try congruence.
 Qed.
 
+(* one iteration of the send loop on an already numbered data segment inside the window *)
+Lemma sendLoop_data_step f t endv limit w rest :
+  wunsent (SN t) = w :: rest -> outstanding (SN t) < cwnd (SN t) ->
+  w_flags w <> 0 -> w_data w <> [] -> lessThan (w_seq w) endv = true ->
+  let available := if limit <? size (w_seq w) endv then limit else size (w_seq w) endv in
+  let w2 := if available <? len (w_data w) then mkW (w_seq w) (w_flags w) (takeZ available (w_data w)) else w in
+  let rest' := if available <? len (w_data w)
+               then mkW (add (w_seq w) (u32 available)) (w_flags w) (dropZ available (w_data w)) :: rest else rest in
+  sendLoop (S f) t endv limit =
+  sendLoop f (xmit t ((SN t) <| outstanding := outstanding (SN t) + 1 |> <| wsent := wsent (SN t) ++ [w2] |>
+                             <| wunsent := rest' |>)
+                   (w_data w2) (w_flags w2) (w_seq w2) (add (w_seq w2) (u32 (len (w_data w2))))) endv limit.
+Proof.
+  intros WU OC FL DT LT. cbv zeta. cbn [sendLoop]. cbv zeta. rewrite WU.
+  destruct (outstanding (SN t) <? cwnd (SN t)) eqn:E; [|lia]. cbn [negb].
+  destruct (w_flags w =? 0) eqn:EF; [lia|].
+  assert (LD : len (w_data w) =? 0 = false).
+  { destruct (len (w_data w) =? 0) eqn:E2; [|reflexivity]. exfalso. apply DT, len_zero_nil. lia. }
+  rewrite LD, LT. cbn [negb].
+  destruct ((if limit <? size (w_seq w) endv then limit else size (w_seq w) endv) <? len (w_data w));
+    unfold xmit; cbv beta zeta iota; cbn [fst snd w_seq w_flags w_data]; reflexivity.
+Qed.
+
 (* when the head of the write list is a data segment that was already transmitted (numbered) and
    the peer's window still covers its start, the expiry emits exactly one frame: that segment,
    or its window/MSS-limited prefix *)
+Lemma sendData_out_loop t :
+  out (sendData t false) =
+  out (sendLoop (S (wbytes (wunsent (SN t)))) t (add (sndUna (SN t)) (sndWnd (SN t))) (maxPayload (SN t))).
+Proof.
+  unfold sendData. cbv zeta. rewrite andb_false_r. cbn [andb].
+  replace (t <| SN := SN t |>) with t by (destruct t; reflexivity).
+  match goal with |- out (if ?c then _ else _) = _ => destruct c end; reflexivity.
+Qed.
+
+(* with room for exactly one more segment the loop emits exactly one frame *)
+Lemma sendLoop_one f t endv limit w rest :
+  wunsent (SN t) = w :: rest -> outstanding (SN t) + 1 = cwnd (SN t) ->
+  w_flags w <> 0 -> w_data w <> [] -> lessThan (w_seq w) endv = true ->
+  let avail := Z.min limit (size (w_seq w) endv) in
+  exists ak wn,
+    out (sendLoop (S f) t endv limit) =
+    out t ++ [mkF (w_seq w) ak (w_flags w) wn (if avail <? len (w_data w) then takeZ avail (w_data w) else w_data w)].
+Proof.
+  intros WU OC FL DT LT. cbv zeta.
+  rewrite (sendLoop_data_step f t endv limit w rest WU ltac:(lia) FL DT LT).
+  assert (AV : (if limit <? size (w_seq w) endv then limit else size (w_seq w) endv) = Z.min limit (size (w_seq w) endv)).
+  { destruct (limit <? size (w_seq w) endv) eqn:E; lia. }
+  rewrite AV. clear AV. set (avail := Z.min limit (size (w_seq w) endv)).
+  match goal with |- context [xmit ?a ?b ?c ?d ?e ?f] =>
+    destruct (xmit_spec a b c d e f) as (L3 & O3 & _ & _ & ak & wn & F3'); set (t3 := xmit a b c d e f) in * end.
+  assert (CL : cwnd (SN t3) <= outstanding (SN t3)).
+  { loopf L3. rewrite O3, Hcw. cbn -[Z.add]. lia. }
+  clearbody t3. rewrite (sendLoop_closed f t3 endv limit CL).
+  exists ak, wn. rewrite F3'. destruct (avail <? len (w_data w)); reflexivity.
+Qed.
+
 Lemma rto_emits_head t w rest :
   live t -> rto (SN t) < maxRTO ->
   wsent (SN t) ++ wunsent (SN t) = w :: rest ->
-  w_flags w <> 0 -> w_data w <> [] -> 1 <= maxPayload (SN t) ->
+  w_flags w <> 0 -> w_data w <> [] ->
   lessThan (w_seq w) (add (sndUna (SN t)) (sndWnd (SN t))) = true ->
   let avail := Z.min (maxPayload (SN t)) (size (w_seq w) (add (sndUna (SN t)) (sndWnd (SN t)))) in
   exists ak wn,
     out (fst (step t ERto)) =
       [mkF (w_seq w) ak (w_flags w) wn (if avail <? len (w_data w) then takeZ avail (w_data w) else w_data w)].
 Proof.
-  intros L R WL FL DT MP LT. cbv zeta. rewrite (step_rto_live t L R). rewrite loopExit_out.
+  intros L R WL FL DT LT. cbv zeta. rewrite (step_rto_live t L R). rewrite loopExit_out.
   destruct (rtoReset_fields (SN t)) as (F1 & F2 & F3 & F4 & F5 & F6 & F7 & F8 & F9 & F10 & F11 & F12 & F13).
-  set (t1 := t <| out := [] |> <| SN := rtoReset (SN t) |>).
-  assert (OUT : exists ak wn,
-     out (sendLoop (S (wbytes (wunsent (SN t1)))) t1 (add (sndUna (SN t1)) (sndWnd (SN t1))) (maxPayload (SN t1))) =
-      [mkF (w_seq w) ak (w_flags w) wn
-         (if Z.min (maxPayload (SN t)) (size (w_seq w) (add (sndUna (SN t)) (sndWnd (SN t)))) <? len (w_data w)
-          then takeZ (Z.min (maxPayload (SN t)) (size (w_seq w) (add (sndUna (SN t)) (sndWnd (SN t))))) (w_data w)
-          else w_data w)]).
-  { cbn [sendLoop]. cbv zeta. change (SN t1) with (rtoReset (SN t)).
-    rewrite F7, WL, F3, F2, F8, F10, F11. cbn [Z.ltb Z.compare negb].
-    destruct (w_flags w =? 0) eqn:EF; [lia|].
-    assert (LD : len (w_data w) =? 0 = false).
-    { destruct (len (w_data w) =? 0) eqn:E; [|reflexivity]. exfalso. apply DT, len_zero_nil. lia. }
-    rewrite LD, LT. cbn [negb].
-    set (endv := add (sndUna (SN t)) (sndWnd (SN t))).
-    set (available := if maxPayload (SN t) <? size (w_seq w) endv then maxPayload (SN t) else size (w_seq w) endv).
-    assert (AV : available = Z.min (maxPayload (SN t)) (size (w_seq w) endv)).
-    { subst available. destruct (maxPayload (SN t) <? size (w_seq w) endv) eqn:E; lia. }
-    rewrite <- AV.
-    destruct (available <? len (w_data w)) eqn:EA.
-    - match goal with |- context [sendLoop _ ?x endv _] =>
-        match x with (if lessThan _ ?se then _ else _) =>
-          change x with (xmit t1 ((rtoReset (SN t)) <| outstanding := 0 + 1 |> <| wsent := wsent (rtoReset (SN t)) ++ [mkW (w_seq w) (w_flags w) (takeZ available (w_data w))] |>
-                                  <| wunsent := mkW (add (w_seq w) (u32 available)) (w_flags w) (dropZ available (w_data w)) :: rest |>)
-                           (takeZ available (w_data w)) (w_flags w) (w_seq w) se) end end.
-      match goal with |- context [xmit ?a ?b ?c ?d ?e ?f] =>
-        destruct (xmit_spec a b c d e f) as (L3 & O3 & _ & _ & ak & wn & F3'); set (t3 := xmit a b c d e f) in * end.
-      rewrite sendLoop_closed.
-      + exists ak, wn. rewrite F3'. reflexivity.
-      + loopf L3. cbn in *. rewrite O3, Hcw, F2. lia.
-    - match goal with |- context [sendLoop _ ?x endv _] =>
-        match x with (if lessThan _ ?se then _ else _) =>
-          change x with (xmit t1 ((rtoReset (SN t)) <| outstanding := 0 + 1 |> <| wsent := wsent (rtoReset (SN t)) ++ [w] |>
-                                  <| wunsent := rest |>)
-                           (w_data w) (w_flags w) (w_seq w) se) end end.
-      match goal with |- context [xmit ?a ?b ?c ?d ?e ?f] =>
-        destruct (xmit_spec a b c d e f) as (L3 & O3 & _ & _ & ak & wn & F3'); set (t3 := xmit a b c d e f) in * end.
-      rewrite sendLoop_closed.
-      + exists ak, wn. rewrite F3'. reflexivity.
-      + loopf L3. cbn in *. rewrite O3, Hcw, F2. lia. }
-  destruct OUT as (ak & wn & OUT). exists ak, wn.
-  unfold sendData. cbv zeta. rewrite andb_false_r. cbn [andb].
-  replace (t1 <| SN := SN t1 |>) with t1 by reflexivity.
-  match goal with |- out (if ?c then _ else _) = _ => destruct c end; cbn [out set]; exact OUT.
+  remember (t <| out := [] |> <| SN := rtoReset (SN t) |>) as t1 eqn:ET1.
+  assert (S1 : SN t1 = rtoReset (SN t)) by (rewrite ET1; reflexivity).
+  assert (O1 : out t1 = []) by (rewrite ET1; reflexivity).
+  clear ET1. rewrite sendData_out_loop.
+  assert (WU : wunsent (SN t1) = w :: rest) by (rewrite S1, F7; exact WL).
+  assert (OC : outstanding (SN t1) + 1 = cwnd (SN t1)) by (rewrite S1, F3, F2; lia).
+  assert (LT1 : lessThan (w_seq w) (add (sndUna (SN t1)) (sndWnd (SN t1))) = true) by (rewrite S1, F8, F10; exact LT).
+  destruct (sendLoop_one (wbytes (wunsent (SN t1))) t1 _ (maxPayload (SN t1)) w rest WU OC FL DT LT1) as (ak & wn & E).
+  exists ak, wn. rewrite E, O1. cbn [app]. rewrite S1, F8, F10, F11. reflexivity.
 Qed.
 
 Lemma run_snoc t es e : run t (es ++ [e]) = fst (step (run t es) e).
@@ -274,35 +294,42 @@ Qed.
 
 (* ------------------------------------------------------------------ fast retransmit / fast recovery *)
 
-(* sender.handleRcvdSegment up to (not including) its final sendData *)
-Definition preSend (t : tcp) (sg : seg) (wnd : Z) (newRto : Z) : tcp :=
+(* sender.handleRcvdSegment in pieces: the RTT sample, the ACK processing, and everything up to
+   (not including) the final sendData *)
+Definition hs1 (t : tcp) (sg : seg) (newRto : Z) : sndr :=
   let s0 := SN t in
   let clampRto := if newRto <? minRTO then minRTO else newRto in
-  let s1 := if negb (tsOk t) && lessThan (rttSeq s0) (s_ack sg)
-            then s0 <| rto := clampRto |> <| rttSeq := sndNxt s0 |> else s0 in
-  let segLog := plogicalLen (s_flags sg) (s_data sg) in
-  let '(s2, rtx) := checkDuplicateAck s1 (s_ack sg) segLog wnd in
-  let s3 := s2 <| sndWnd := wnd |> in
+  if negb (tsOk t) && lessThan (rttSeq s0) (s_ack sg)
+  then s0 <| rto := clampRto |> <| rttSeq := sndNxt s0 |> else s0.
+
+Definition ackPart (t : tcp) (s3 : sndr) (sg : seg) (newRto : Z) : tcp :=
+  let clampRto := if newRto <? minRTO then minRTO else newRto in
   let ack := s_ack sg in
   let t3 := t <| SN := s3 |> in
-  let t4 :=
-    if inRange (u32 (ack - 1)) (sndUna s3) (sndNxt s3) then
-      let s4 := s3 <| dupAck := 0 |> <| tstate := if tstate s3 =? tDisabled then tDisabled else tOrphaned |> in
-      let s5 := if tsOk t && s_tsecr sg then s4 <| rto := clampRto |> else s4 in
-      let acked := size (sndUna s5) ack in
-      let '(sent', unsent', removed) :=
-        ackLoop (S (length (wsent s5) + length (wunsent s5))) (wsent s5) (wunsent s5) acked 0 in
-      let s6 := s5 <| sndUna := ack |> <| wsent := sent' |> <| wunsent := unsent' |>
-                   <| outstanding := outstanding s5 - removed |> in
-      let s7 := if frActive s6 then s6 else renoUpdate s6 removed in
-      let s8 := if outstanding s7 <? 0 then s7 <| outstanding := 0 |> else s7 in
-      t3 <| SN := s8 |> <| sndBufUsed := sndBufUsed t3 - acked |>
-    else t3 in
-  if rtx then resendSegment t4 else t4.
+  if inRange (u32 (ack - 1)) (sndUna s3) (sndNxt s3) then
+    let s4 := s3 <| dupAck := 0 |> <| tstate := if tstate s3 =? tDisabled then tDisabled else tOrphaned |> in
+    let s5 := if tsOk t && s_tsecr sg then s4 <| rto := clampRto |> else s4 in
+    let acked := size (sndUna s5) ack in
+    let '(sent', unsent', removed) :=
+      ackLoop (S (length (wsent s5) + length (wunsent s5))) (wsent s5) (wunsent s5) acked 0 in
+    let s6 := s5 <| sndUna := ack |> <| wsent := sent' |> <| wunsent := unsent' |>
+                 <| outstanding := outstanding s5 - removed |> in
+    let s7 := if frActive s6 then s6 else renoUpdate s6 removed in
+    let s8 := if outstanding s7 <? 0 then s7 <| outstanding := 0 |> else s7 in
+    t3 <| SN := s8 |> <| sndBufUsed := sndBufUsed t3 - acked |>
+  else t3.
+
+Definition preSend (t : tcp) (sg : seg) (wnd : Z) (newRto : Z) : tcp :=
+  let r := checkDuplicateAck (hs1 t sg newRto) (s_ack sg) (seglen sg) wnd in
+  let t4 := ackPart t ((fst r) <| sndWnd := wnd |>) sg newRto in
+  if snd r then resendSegment t4 else t4.
 
 Lemma sndHandle_preSend t sg wnd newRto idle :
   sndHandle t sg wnd newRto idle = sendData (preSend t sg wnd newRto) idle.
-Proof. reflexivity. Qed.
+Proof.
+  unfold sndHandle, preSend, hs1, ackPart, seglen. cbv zeta.
+  destruct (checkDuplicateAck _ _ _ _) as [s2 rtx]. reflexivity.
+Qed.
 
 Lemma step_processed t sg newRto :
   processed t sg = true ->
@@ -320,6 +347,27 @@ Proof.
   rewrite P1, P2, P3, P4. cbn [negb]. reflexivity.
 Qed.
 
+(* hs1 changes rto and rttSeq only *)
+Definition same_but_rtt (s s' : sndr) : Prop :=
+  s' <| rto := 0 |> <| rttSeq := 0 |> = s <| rto := 0 |> <| rttSeq := 0 |>.
+
+Lemma same_but_rtt_fields s s' : same_but_rtt s s' ->
+  dupAck s' = dupAck s /\ frActive s' = frActive s /\ frFirst s' = frFirst s /\ frLast s' = frLast s /\
+  frMaxCwnd s' = frMaxCwnd s /\ cwnd s' = cwnd s /\ ssthresh s' = ssthresh s /\ caCount s' = caCount s /\
+  outstanding s' = outstanding s /\ sndWnd s' = sndWnd s /\ sndUna s' = sndUna s /\ sndNxt s' = sndNxt s /\
+  wsent s' = wsent s /\ wunsent s' = wunsent s /\ tstate s' = tstate s.
+Proof.
+  intros H. destruct s, s'. unfold same_but_rtt in H. cbn in H. inversion H. subst. cbn. repeat split.
+Qed.
+Ltac rttf H :=
+  let H' := fresh in
+  pose proof (same_but_rtt_fields _ _ H) as H';
+  destruct H' as (?Rdup & ?Rfra & ?Rfrf & ?Rfrl & ?Rfrm & ?Rcw & ?Rss & ?Rca & ?Rout & ?Rwn & ?Run & ?Rnx &
+                  ?Rwse & ?Rwun & ?Rts).
+
+Lemma hs1_same t sg newRto : same_but_rtt (SN t) (hs1 t sg newRto).
+Proof. unfold hs1. cbv zeta. destruct (_ && _); reflexivity. Qed.
+
 Lemma inRange_self_false a n : inRange (u32 (a - 1)) a n = false.
 Proof.
   unfold inRange. apply Z.ltb_ge. unfold u32. rewrite Zminus_mod_idemp_l.
@@ -327,99 +375,9 @@ Proof.
   pose proof (Z.mod_pos_bound (n - a) (2^32) ltac:(lia)). lia.
 Qed.
 
-Lemma cda_third s ack wnd :
-  frActive s = false -> dupAck s = 2 -> ack = sndUna s -> sndUna s <> sndNxt s -> wnd = sndWnd s ->
-  lessThan (frLast s) ack = true ->
-  checkDuplicateAck s ack 0 wnd = ((enterFastRecovery (reduceSsthresh (s <| dupAck := dupAck s + 1 |>))) <| dupAck := 0 |>, true).
-Proof.
-  intros F D A N W L. unfold checkDuplicateAck. rewrite F.
-  subst ack wnd. rewrite !Z.eqb_refl. cbn [negb orb].
-  destruct (sndUna s =? sndNxt s) eqn:E; [lia|].
-  cbn [dupAck set]. rewrite D. change (2 + 1 <? nDupAckThreshold) with false. cbv iota.
-  change (frLast (s <| dupAck := 2 + 1 |>)) with (frLast s). rewrite L. reflexivity.
-Qed.
-
-Definition third_dupack (t : tcp) (sg : seg) : Prop :=
-  processed t sg = true /\ frActive (SN t) = false /\ dupAck (SN t) = 2 /\ sndUna (SN t) <> sndNxt (SN t) /\
-  lessThan (frLast (SN t)) (sndUna (SN t)) = true /\
-  s_ack sg = sndUna (SN t) /\ seglen sg = 0 /\ wndOf t sg = sndWnd (SN t).
-
-(* the state of the sender right after the third duplicate ACK, before sendData *)
-Lemma preSend_third t sg wnd newRto w rest :
-  frActive (SN t) = false -> dupAck (SN t) = 2 -> sndUna (SN t) <> sndNxt (SN t) ->
-  lessThan (frLast (SN t)) (sndUna (SN t)) = true ->
-  s_ack sg = sndUna (SN t) -> seglen sg = 0 -> wnd = sndWnd (SN t) ->
-  wsent (SN t) ++ wunsent (SN t) = w :: rest ->
-  let t5 := preSend t sg wnd newRto in
-  (exists ak wn, out t5 = out t ++ [mkF (w_seq w) ak (w_flags w) wn (w_data w)]) /\
-  frActive (SN t5) = true /\ ssthresh (SN t5) = Z.max 2 (Z.quot (outstanding (SN t)) 2) /\
-  cwnd (SN t5) = ssthresh (SN t5) + 3 /\ frFirst (SN t5) = sndUna (SN t) /\
-  frLast (SN t5) = u32 (sndNxt (SN t) - 1) /\ frMaxCwnd (SN t5) = cwnd (SN t5) + outstanding (SN t) /\
-  dupAck (SN t5) = 0 /\
-  sndUna (SN t5) = sndUna (SN t) /\ sndNxt (SN t5) = sndNxt (SN t) /\ tstate (SN t5) = tstate (SN t) /\
-  outstanding (SN t5) = outstanding (SN t) /\ tsOk t5 = tsOk t.
-Proof.
-  intros F D N L A SL W WL. cbv zeta. unfold preSend. cbv zeta.
-  set (clampRto := if newRto <? minRTO then minRTO else newRto).
-  set (s1 := if negb (tsOk t) && lessThan (rttSeq (SN t)) (s_ack sg)
-             then (SN t) <| rto := clampRto |> <| rttSeq := sndNxt (SN t) |> else SN t).
-  assert (S1 : frActive s1 = false /\ dupAck s1 = 2 /\ sndUna s1 = sndUna (SN t) /\ sndNxt s1 = sndNxt (SN t) /\
-               frLast s1 = frLast (SN t) /\ sndWnd s1 = sndWnd (SN t) /\ outstanding s1 = outstanding (SN t) /\
-               wsent s1 = wsent (SN t) /\ wunsent s1 = wunsent (SN t) /\ tstate s1 = tstate (SN t)).
-  { subst s1. destruct (negb (tsOk t) && lessThan (rttSeq (SN t)) (s_ack sg)); cbn; auto 12. }
-  destruct S1 as (F1 & D1 & U1 & N1 & L1 & W1 & O1 & WS1 & WU1 & T1).
-  fold (seglen sg). rewrite SL.
-  rewrite (cda_third s1 (s_ack sg) wnd); try congruence.
-  cbn [sndUna sndNxt set enterFastRecovery reduceSsthresh].
-  match goal with |- context [inRange ?a ?b ?c] =>
-    replace (inRange a b c) with false
-      by (symmetry; replace b with (s_ack sg) by (cbn; congruence); apply inRange_self_false) end.
-  match goal with |- context [resendSegment ?x] => set (t4 := x) end.
-  destruct (resendSegment_spec t4) as (RC1 & RT & _ & RO).
-  assert (W4 : wsent (SN t4) ++ wunsent (SN t4) = w :: rest).
-  { subst t4. cbn. rewrite WS1, WU1. exact WL. }
-  rewrite W4 in RO. destruct RO as (ak & wn & RO).
-  coref RC1. subst t4. cbn -[Z.quot Z.max Z.add] in *.
-  rewrite F1, D1, U1, N1, O1, T1 in *.
-  split; [exists ak, wn; exact RO|].
-  repeat split; try assumption; try congruence.
-  - rewrite Hss. destruct (Z.quot (outstanding (SN t)) 2 <? 2) eqn:E; lia.
-  - rewrite Hcw, Hss. reflexivity.
-  - rewrite Hfrm, Hcw, Hss. reflexivity.
-Qed.
-
-(* fast_retransmit_on_third_dupack *)
-Lemma fast_retransmit t sg newRto w rest :
-  third_dupack t sg -> wsent (SN t) ++ wunsent (SN t) = w :: rest ->
-  let t' := fst (step t (ESeg sg newRto)) in
-  (exists pre post ak wn, out t' = pre ++ mkF (w_seq w) ak (w_flags w) wn (w_data w) :: post /\ dcount pre = 0) /\
-  frActive (SN t') = true /\ ssthresh (SN t') = Z.max 2 (Z.quot (outstanding (SN t)) 2) /\
-  cwnd (SN t') = ssthresh (SN t') + 3 /\ frFirst (SN t') = sndUna (SN t) /\
-  frLast (SN t') = u32 (sndNxt (SN t) - 1) /\ dupAck (SN t') = 0 /\ sndUna (SN t') = sndUna (SN t) /\
-  (tstate (SN t) = tEnabled -> tstate (SN t') = tEnabled).
-Proof.
-  intros (P & F & D & N & L & A & SL & W) WL. cbv zeta.
-  rewrite (step_processed t sg newRto P). cbv zeta.
-  set (t0 := t <| out := [] |>). set (tr := rcvHandle t0 sg).
-  destruct (rcvHandle_quiet t0 sg) as (QC & _ & pre & QO & QD). fold tr in QC, QO.
-  change (out t0) with (@nil frame) in QO. cbn [app] in QO.
-  coref QC. change (SN t0) with (SN t) in *.
-  rewrite sndHandle_preSend.
-  pose proof (preSend_third tr sg (wndOf t sg) newRto w rest) as PT. cbv zeta in PT.
-  rewrite Hfra, Hdup, Hun, Hnx, Hfrl, Hwse, Hwun, Hout, Hts in PT.
-  specialize (PT F D N L A SL W WL).
-  set (t5 := preSend tr sg (wndOf t sg) newRto) in *.
-  destruct PT as ((ak & wn & O5) & P1 & P2 & P3 & P4 & P5 & P6 & P7 & P8 & P9 & P10 & P11 & P12).
-  pose proof (sendData_spec t5) as SD. cbv zeta in SD.
-  destruct SD as (LF & _ & _ & _ & TS & fs & OF & _). set (t6 := sendData t5 false) in *.
-  match goal with |- context [loopExit ?x] => destruct (tail_quiet t6) as (TC & _ & post & TO & _); set (t7 := loopExit x) in * end.
-  loopfT LF. clear Hts. coref TC.
-  split.
-  - exists pre, (fs ++ post), ak, wn. split; [|exact QD].
-    rewrite TO, OF, O5, QO. rewrite <- !app_assoc. reflexivity.
-  - repeat split; try congruence.
-    intros TE. rewrite Hts0, TS, P10, TE. reflexivity.
-Qed.
+Lemma ackPart_noadv t s3 sg newRto :
+  inRange (u32 (s_ack sg - 1)) (sndUna s3) (sndNxt s3) = false -> ackPart t s3 sg newRto = t <| SN := s3 |>.
+Proof. intros H. unfold ackPart. cbv zeta. rewrite H. reflexivity. Qed.
 
 (* the write list after k bytes were newly acknowledged (spec vocabulary) *)
 Fixpoint trimmed (l : list wseg) (k : Z) : list wseg :=
@@ -451,12 +409,183 @@ Proof.
     unfold u32. rewrite Z.mod_small by lia. reflexivity.
 Qed.
 
+Lemma trimmed_0 l : trimmed l 0 = l.
+Proof. destruct l; reflexivity. Qed.
+
+Lemma renoUpdate_keeps s n :
+  dupAck (renoUpdate s n) = dupAck s /\ tstate (renoUpdate s n) = tstate s /\
+  wsent (renoUpdate s n) = wsent s /\ wunsent (renoUpdate s n) = wunsent s /\
+  sndUna (renoUpdate s n) = sndUna s /\ frFirst (renoUpdate s n) = frFirst s /\ frLast (renoUpdate s n) = frLast s /\
+  frActive (renoUpdate s n) = frActive s /\ ssthresh (renoUpdate s n) = ssthresh s.
+Proof.
+  unfold renoUpdate, renoCA. cbv zeta.
+  repeat match goal with |- context [if ?c then _ else _] => destruct c end; cbn; repeat split.
+Qed.
+
+(* what the ACK processing does when the ACK acknowledges new data *)
+Lemma ackPart_adv t s3 sg newRto :
+  inRange (u32 (s_ack sg - 1)) (sndUna s3) (sndNxt s3) = true ->
+  let t4 := ackPart t s3 sg newRto in
+  out t4 = out t /\ tsOk t4 = tsOk t /\
+  wsent (SN t4) ++ wunsent (SN t4) = trimmed (wsent s3 ++ wunsent s3) (size (sndUna s3) (s_ack sg)) /\
+  sndUna (SN t4) = s_ack sg /\ dupAck (SN t4) = 0 /\
+  tstate (SN t4) = (if tstate s3 =? tDisabled then tDisabled else tOrphaned) /\
+  frFirst (SN t4) = frFirst s3 /\ frLast (SN t4) = frLast s3 /\ frActive (SN t4) = frActive s3 /\
+  ssthresh (SN t4) = ssthresh s3 /\
+  (frActive s3 = true -> cwnd (SN t4) = cwnd s3) /\
+  (frActive s3 = false -> 1 <= cwnd s3 -> 0 <= caCount s3 -> 1 <= ssthresh s3 ->
+     cwnd s3 <= cwnd (SN t4) <= cwnd s3 + caCount s3 / cwnd s3 +
+                                  covered (wsent s3 ++ wunsent s3) (size (sndUna s3) (s_ack sg))).
+Proof.
+  intros IR. cbv zeta. unfold ackPart. cbv zeta. rewrite IR.
+  set (clampRto := if newRto <? minRTO then minRTO else newRto).
+  set (s4 := s3 <| dupAck := 0 |> <| tstate := if tstate s3 =? tDisabled then tDisabled else tOrphaned |>).
+  set (s5 := if tsOk t && s_tsecr sg then s4 <| rto := clampRto |> else s4).
+  assert (W5 : wsent s5 = wsent s3 /\ wunsent s5 = wunsent s3 /\ sndUna s5 = sndUna s3 /\
+               frActive s5 = frActive s3 /\ frFirst s5 = frFirst s3 /\ cwnd s5 = cwnd s3 /\
+               ssthresh s5 = ssthresh s3 /\ frLast s5 = frLast s3 /\ caCount s5 = caCount s3 /\ dupAck s5 = 0 /\
+               tstate s5 = (if tstate s3 =? tDisabled then tDisabled else tOrphaned)).
+  { subst s5 s4. destruct (tsOk t && s_tsecr sg); cbn; auto 12. }
+  destruct W5 as (W5 & X5 & U5 & F5 & FF5 & C5 & SS5 & L5 & CA5 & D5 & T5). clearbody s5. clear s4.
+  rewrite W5, X5, U5.
+  pose proof (ackLoop_lists (S (length (wsent s3) + length (wunsent s3))) (wsent s3) (wunsent s3)
+                (size (sndUna s3) (s_ack sg)) 0 ltac:(lia)
+                ltac:(unfold size, u32; apply Z.mod_pos_bound; lia)) as AL.
+  pose proof (ackLoop_removed (S (length (wsent s3) + length (wunsent s3))) (wsent s3) (wunsent s3)
+                (size (sndUna s3) (s_ack sg)) 0 ltac:(lia)
+                ltac:(unfold size, u32; apply Z.mod_pos_bound; lia)) as AR.
+  destruct (ackLoop (S (length (wsent s3) + length (wunsent s3))) (wsent s3) (wunsent s3)
+              (size (sndUna s3) (s_ack sg)) 0) as [[sent' unsent'] removed].
+  cbn [fst snd] in AL, AR. rewrite Z.add_0_l in AR. rewrite <- AL, <- AR.
+  pose proof (covered_nonneg (wsent s3 ++ wunsent s3) (size (sndUna s3) (s_ack sg))) as CN. rewrite <- AR in CN.
+  set (s6 := s5 <| sndUna := s_ack sg |> <| wsent := sent' |> <| wunsent := unsent' |>
+                <| outstanding := outstanding s5 - removed |>).
+  assert (E6 : wsent s6 = sent' /\ wunsent s6 = unsent' /\ sndUna s6 = s_ack sg /\
+               frActive s6 = frActive s3 /\ frFirst s6 = frFirst s3 /\ cwnd s6 = cwnd s3 /\
+               ssthresh s6 = ssthresh s3 /\ frLast s6 = frLast s3 /\ caCount s6 = caCount s3 /\ dupAck s6 = 0 /\
+               tstate s6 = (if tstate s3 =? tDisabled then tDisabled else tOrphaned)).
+  { subst s6. cbn. auto 12. }
+  destruct E6 as (E1 & E2 & E3 & E4 & E5 & E6 & E7 & E8 & E9 & E10 & E11). clearbody s6.
+  set (s7 := if frActive s6 then s6 else renoUpdate s6 removed).
+  assert (E7' : wsent s7 = sent' /\ wunsent s7 = unsent' /\ sndUna s7 = s_ack sg /\
+               frActive s7 = frActive s3 /\ frFirst s7 = frFirst s3 /\
+               ssthresh s7 = ssthresh s3 /\ frLast s7 = frLast s3 /\ dupAck s7 = 0 /\
+               tstate s7 = (if tstate s3 =? tDisabled then tDisabled else tOrphaned) /\
+               (frActive s3 = true -> cwnd s7 = cwnd s3) /\
+               (frActive s3 = false -> 1 <= cwnd s3 -> 0 <= caCount s3 -> 1 <= ssthresh s3 ->
+                  cwnd s3 <= cwnd s7 <= cwnd s3 + caCount s3 / cwnd s3 + removed)).
+  { subst s7. destruct (frActive s6) eqn:EF.
+    - repeat split; try congruence; intros; congruence.
+    - destruct (renoUpdate_keeps s6 removed) as (K1 & K2 & K3 & K4 & K5 & K6 & K7 & K8 & K9).
+      pose proof (renoUpdate_pot s6 removed) as RP. cbv zeta in RP. unfold psi in RP. rewrite E6, E9, E7 in RP.
+      repeat split; try congruence; intros; try congruence.
+      + destruct RP as (R1 & _); lia.
+      + destruct RP as (R1 & R2 & R3 & _); try lia.
+        assert (0 <= caCount (renoUpdate s6 removed) / cwnd (renoUpdate s6 removed)) by (apply Z.div_pos; lia).
+        lia. }
+  clearbody s7.
+  destruct E7' as (G1 & G2 & G3 & G4 & G5 & G6 & G7 & G8 & G9 & G10 & G11).
+  destruct (outstanding s7 <? 0); cbn [SN out tsOk set wsent wunsent sndUna dupAck tstate frFirst frLast frActive ssthresh cwnd];
+    (split; [reflexivity|]); (split; [reflexivity|]); cbn; repeat split; try congruence; auto;
+    intros; specialize (G11 ltac:(assumption) ltac:(assumption) ltac:(assumption) ltac:(assumption)); lia.
+Qed.
+
+Lemma cda_third s ack wnd :
+  frActive s = false -> dupAck s = 2 -> ack = sndUna s -> sndUna s <> sndNxt s -> wnd = sndWnd s ->
+  lessThan (frLast s) ack = true ->
+  checkDuplicateAck s ack 0 wnd = ((enterFastRecovery (reduceSsthresh (s <| dupAck := dupAck s + 1 |>))) <| dupAck := 0 |>, true).
+Proof.
+  intros F D A N W L. unfold checkDuplicateAck. rewrite F.
+  subst ack wnd. rewrite !Z.eqb_refl. cbn [negb orb].
+  destruct (sndUna s =? sndNxt s) eqn:E; [lia|].
+  cbn [dupAck set]. rewrite D. change (2 + 1 <? nDupAckThreshold) with false. cbv iota.
+  change (frLast (s <| dupAck := 2 + 1 |>)) with (frLast s). rewrite L. reflexivity.
+Qed.
+
+Definition third_dupack (t : tcp) (sg : seg) : Prop :=
+  processed t sg = true /\ frActive (SN t) = false /\ dupAck (SN t) = 2 /\ sndUna (SN t) <> sndNxt (SN t) /\
+  lessThan (frLast (SN t)) (sndUna (SN t)) = true /\
+  s_ack sg = sndUna (SN t) /\ seglen sg = 0 /\ wndOf t sg = sndWnd (SN t).
+
+(* the state of the sender right after the third duplicate ACK, before sendData *)
+Lemma preSend_third t sg wnd newRto :
+  frActive (SN t) = false -> dupAck (SN t) = 2 -> sndUna (SN t) <> sndNxt (SN t) ->
+  lessThan (frLast (SN t)) (sndUna (SN t)) = true ->
+  s_ack sg = sndUna (SN t) -> seglen sg = 0 -> wnd = sndWnd (SN t) ->
+  let t5 := preSend t sg wnd newRto in
+  match wsent (SN t) ++ wunsent (SN t) with
+  | w :: _ => exists ak wn, out t5 = out t ++ [mkF (w_seq w) ak (w_flags w) wn (w_data w)]
+  | [] => out t5 = out t
+  end /\
+  frActive (SN t5) = true /\ ssthresh (SN t5) = Z.max 2 (Z.quot (outstanding (SN t)) 2) /\
+  cwnd (SN t5) = ssthresh (SN t5) + 3 /\ frFirst (SN t5) = sndUna (SN t) /\
+  frLast (SN t5) = u32 (sndNxt (SN t) - 1) /\ frMaxCwnd (SN t5) = cwnd (SN t5) + outstanding (SN t) /\
+  dupAck (SN t5) = 0 /\
+  sndUna (SN t5) = sndUna (SN t) /\ sndNxt (SN t5) = sndNxt (SN t) /\ tstate (SN t5) = tstate (SN t) /\
+  outstanding (SN t5) = outstanding (SN t) /\ tsOk t5 = tsOk t.
+Proof.
+  intros F D N L A SL W. cbv zeta. unfold preSend. cbv zeta.
+  pose proof (hs1_same t sg newRto) as HS. rttf HS. set (s1 := hs1 t sg newRto) in *. clearbody s1.
+  rewrite SL. rewrite (cda_third s1 (s_ack sg) wnd); try congruence.
+  cbn [fst snd].
+  set (s3 := (enterFastRecovery (reduceSsthresh (s1 <| dupAck := dupAck s1 + 1 |>))) <| dupAck := 0 |> <| sndWnd := wnd |>).
+  assert (E3 : sndUna s3 = sndUna (SN t) /\ sndNxt s3 = sndNxt (SN t) /\ wsent s3 = wsent (SN t) /\
+               wunsent s3 = wunsent (SN t) /\ frActive s3 = true /\
+               ssthresh s3 = Z.max 2 (Z.quot (outstanding (SN t)) 2) /\ cwnd s3 = ssthresh s3 + 3 /\
+               frFirst s3 = sndUna (SN t) /\ frLast s3 = u32 (sndNxt (SN t) - 1) /\
+               frMaxCwnd s3 = cwnd s3 + outstanding (SN t) /\ dupAck s3 = 0 /\ tstate s3 = tstate (SN t) /\
+               outstanding s3 = outstanding (SN t)).
+  { subst s3. cbn -[Z.quot Z.max Z.add]. rewrite Rout, Run, Rnx, Rwse, Rwun, Rts.
+    repeat split; try reflexivity.
+    destruct (Z.quot (outstanding (SN t)) 2 <? 2) eqn:E; lia. }
+  destruct E3 as (E1 & E2 & E3 & E4 & E5 & E6 & E7 & E8 & E9 & E10 & E11 & E12 & E13). clearbody s3.
+  rewrite ackPart_noadv by (rewrite E1, <- A; apply inRange_self_false).
+  destruct (resendSegment_spec (t <| SN := s3 |>)) as (RC1 & RT & _ & RO).
+  coref RC1. cbn [SN out tsOk set] in *.
+  change (wsent (s3 <| rttSeq := sndNxt s3 |>)) with (wsent s3) in *.
+  rewrite E3, E4 in RO.
+  split; [exact RO|].
+  cbn in Hdup, Hfra, Hfrf, Hfrl, Hfrm, Hcw, Hss, Hout, Hun, Hnx, Hts.
+  repeat split; congruence.
+Qed.
+
+(* fast_retransmit_on_third_dupack *)
+Lemma fast_retransmit t sg newRto w rest :
+  third_dupack t sg -> wsent (SN t) ++ wunsent (SN t) = w :: rest ->
+  let t' := fst (step t (ESeg sg newRto)) in
+  (exists pre post ak wn, out t' = pre ++ mkF (w_seq w) ak (w_flags w) wn (w_data w) :: post /\ dcount pre = 0) /\
+  frActive (SN t') = true /\ ssthresh (SN t') = Z.max 2 (Z.quot (outstanding (SN t)) 2) /\
+  cwnd (SN t') = ssthresh (SN t') + 3 /\ frFirst (SN t') = sndUna (SN t) /\
+  frLast (SN t') = u32 (sndNxt (SN t) - 1) /\ dupAck (SN t') = 0 /\ sndUna (SN t') = sndUna (SN t) /\
+  (tstate (SN t) = tEnabled -> tstate (SN t') = tEnabled).
+Proof.
+  intros (P & F & D & N & L & A & SL & W) WL. cbv zeta.
+  rewrite (step_processed t sg newRto P). cbv zeta.
+  set (t0 := t <| out := [] |>). set (tr := rcvHandle t0 sg).
+  destruct (rcvHandle_quiet t0 sg) as (QC & _ & pre & QO & QD). fold tr in QC, QO.
+  change (out t0) with (@nil frame) in QO. cbn [app] in QO. clearbody tr.
+  coref QC. change (SN t0) with (SN t) in *.
+  rewrite sndHandle_preSend.
+  pose proof (preSend_third tr sg (wndOf t sg) newRto) as PT. cbv zeta in PT.
+  rewrite Hfra, Hdup, Hun, Hnx, Hfrl, Hwse, Hwun, Hout, Hts, Hwn, WL in PT.
+  specialize (PT F D N L A SL W).
+  set (t5 := preSend tr sg (wndOf t sg) newRto) in *. clearbody t5.
+  destruct PT as ((ak & wn & O5) & P1 & P2 & P3 & P4 & P5 & P6 & P7 & P8 & P9 & P10 & P11 & P12).
+  pose proof (sendData_spec t5) as SD. cbv zeta in SD.
+  destruct SD as (LF & _ & _ & _ & TS & fs & OF & _). set (t6 := sendData t5 false) in *. clearbody t6.
+  destruct (tail_quiet t6) as (TC & _ & post & TO & _).
+  match goal with |- context [loopExit ?x] => set (t7 := loopExit x) in * end. clearbody t7.
+  loopfT LF. coref TC.
+  split.
+  - exists pre, (fs ++ post), ak, wn. split; [|exact QD].
+    rewrite TO, OF, O5, QO. rewrite <- !app_assoc. reflexivity.
+  - repeat split; try congruence.
+    intros TE. rewrite Hts0, TS, P10, TE. reflexivity.
+Qed.
+
 (* bytes newly acknowledged by this segment *)
 Definition newlyAcked (s : sndr) (sg : seg) : Z :=
   if inRange (u32 (s_ack sg - 1)) (sndUna s) (sndNxt s) then size (sndUna s) (s_ack sg) else 0.
-
-Lemma trimmed_0 l : trimmed l 0 = l.
-Proof. destruct l; reflexivity. Qed.
 
 Definition partial_ack (t : tcp) (sg : seg) : Prop :=
   processed t sg = true /\ frActive (SN t) = true /\
@@ -476,62 +605,35 @@ Lemma preSend_partial t sg wnd newRto w rest :
   ssthresh (SN t5) = ssthresh (SN t) /\ frLast (SN t5) = frLast (SN t).
 Proof.
   intros F IR L SL W NF WL. cbv zeta. unfold preSend. cbv zeta.
-  set (clampRto := if newRto <? minRTO then minRTO else newRto).
-  set (s1 := if negb (tsOk t) && lessThan (rttSeq (SN t)) (s_ack sg)
-             then (SN t) <| rto := clampRto |> <| rttSeq := sndNxt (SN t) |> else SN t).
-  assert (S1 : frActive s1 = true /\ sndUna s1 = sndUna (SN t) /\ sndNxt s1 = sndNxt (SN t) /\
-               frLast s1 = frLast (SN t) /\ sndWnd s1 = sndWnd (SN t) /\ frFirst s1 = frFirst (SN t) /\
-               wsent s1 = wsent (SN t) /\ wunsent s1 = wunsent (SN t) /\ cwnd s1 = cwnd (SN t) /\
-               ssthresh s1 = ssthresh (SN t)).
-  { subst s1. destruct (negb (tsOk t) && lessThan (rttSeq (SN t)) (s_ack sg)); cbn; auto 12. }
-  destruct S1 as (F1 & U1 & N1 & L1 & W1 & FF1 & WS1 & WU1 & C1 & SS1).
-  fold (seglen sg). rewrite SL.
+  pose proof (hs1_same t sg newRto) as HS. rttf HS. set (s1 := hs1 t sg newRto) in *. clearbody s1.
+  rewrite SL.
   assert (CD : checkDuplicateAck s1 (s_ack sg) 0 wnd = (s1 <| frFirst := s_ack sg |> <| dupAck := 0 |>, true)).
-  { unfold checkDuplicateAck. rewrite F1, U1, N1, IR, L1, L, W1, W, Z.eqb_refl, FF1. cbn [negb orb].
+  { unfold checkDuplicateAck. rewrite Rfra, F, Run, Rnx, IR, Rfrl, L, Rwn, W, !Z.eqb_refl, Rfrf. cbn [negb orb].
     destruct (s_ack sg =? frFirst (SN t)) eqn:E; [lia|]. reflexivity. }
-  rewrite CD. cbn [sndUna sndNxt set].
-  change (sndUna (s1 <| frFirst := s_ack sg |> <| dupAck := 0 |> <| sndWnd := wnd |>)) with (sndUna s1).
-  change (sndNxt (s1 <| frFirst := s_ack sg |> <| dupAck := 0 |> <| sndWnd := wnd |>)) with (sndNxt s1).
-  rewrite U1, N1. unfold newlyAcked in WL.
+  rewrite CD. cbn [fst snd].
+  set (s3 := s1 <| frFirst := s_ack sg |> <| dupAck := 0 |> <| sndWnd := wnd |>).
+  assert (E3 : sndUna s3 = sndUna (SN t) /\ sndNxt s3 = sndNxt (SN t) /\ wsent s3 = wsent (SN t) /\
+               wunsent s3 = wunsent (SN t) /\ frActive s3 = true /\ frFirst s3 = s_ack sg /\
+               cwnd s3 = cwnd (SN t) /\ ssthresh s3 = ssthresh (SN t) /\ frLast s3 = frLast (SN t)).
+  { subst s3. cbn. repeat split; congruence. }
+  destruct E3 as (E1 & E2 & E3 & E4 & E5 & E6 & E7 & E8 & E9). clearbody s3.
+  unfold newlyAcked in WL.
   destruct (inRange (u32 (s_ack sg - 1)) (sndUna (SN t)) (sndNxt (SN t))) eqn:EI.
-  - set (sA := s1 <| frFirst := s_ack sg |> <| dupAck := 0 |> <| sndWnd := wnd |> <| dupAck := 0 |>
-                  <| tstate := if tstate (s1 <| frFirst := s_ack sg |> <| dupAck := 0 |> <| sndWnd := wnd |>) =? tDisabled
-                               then tDisabled else tOrphaned |>).
-    set (s5 := if tsOk t && s_tsecr sg then sA <| rto := clampRto |> else sA).
-    assert (W5 : wsent s5 = wsent (SN t) /\ wunsent s5 = wunsent (SN t) /\ sndUna s5 = sndUna (SN t) /\
-                 frActive s5 = true /\ frFirst s5 = s_ack sg /\ cwnd s5 = cwnd (SN t) /\
-                 ssthresh s5 = ssthresh (SN t) /\ frLast s5 = frLast (SN t)).
-    { subst s5 sA. destruct (tsOk t && s_tsecr sg); cbn; auto 12. }
-    destruct W5 as (W5 & X5 & U5 & F5 & FF5 & C5 & SS5 & L5). rewrite W5, X5, U5.
-    pose proof (ackLoop_lists (S (length (wsent (SN t)) + length (wunsent (SN t)))) (wsent (SN t)) (wunsent (SN t))
-                  (size (sndUna (SN t)) (s_ack sg)) 0 ltac:(lia)
-                  ltac:(unfold size, u32; apply Z.mod_pos_bound; lia)) as AL.
-    destruct (ackLoop (S (length (wsent (SN t)) + length (wunsent (SN t)))) (wsent (SN t)) (wunsent (SN t))
-                (size (sndUna (SN t)) (s_ack sg)) 0) as [[sent' unsent'] removed].
-    cbn [fst snd] in AL. rewrite WL in AL.
-    cbn [frActive set]. 
-    change (frActive (s5 <| sndUna := s_ack sg |> <| wsent := sent' |> <| wunsent := unsent' |>
-                        <| outstanding := outstanding s5 - removed |>)) with (frActive s5).
-    rewrite F5.
-    match goal with |- context [resendSegment ?x] => set (t4 := x) end.
+  - pose proof (ackPart_adv t s3 sg newRto) as AP. cbv zeta in AP.
+    rewrite E1, E2 in AP. specialize (AP EI).
+    set (t4 := ackPart t s3 sg newRto) in *. clearbody t4.
+    destruct AP as (A1 & A2 & A3 & A4 & A5 & A6 & A7 & A8 & A9 & A10 & A11 & _).
+    rewrite E3, E4, WL in A3.
     destruct (resendSegment_spec t4) as (RC1 & _ & _ & RO).
-    assert (W4 : wsent (SN t4) ++ wunsent (SN t4) = w :: rest).
-    { subst t4. cbn [SN set]. match goal with |- context [if ?c then _ else _] => destruct c end; cbn; exact AL. }
-    rewrite W4 in RO. destruct RO as (ak & wn & RO).
-    coref RC1.
-    assert (E4 : out t4 = out t /\ frActive (SN t4) = true /\ frFirst (SN t4) = s_ack sg /\ cwnd (SN t4) = cwnd (SN t) /\
-                 ssthresh (SN t4) = ssthresh (SN t) /\ frLast (SN t4) = frLast (SN t)).
-    { subst t4. cbn [SN set out]. match goal with |- context [if ?c then _ else _] => destruct c end; cbn; auto 10. }
-    destruct E4 as (E41 & E42 & E43 & E44 & E45 & E46).
-    split; [exists ak, wn; rewrite RO, E41; reflexivity|].
-    cbn in Hfra, Hfrf, Hcw, Hss, Hfrl. repeat split; congruence.
+    rewrite A3 in RO. destruct RO as (ak & wn & RO).
+    coref RC1. cbn in Hfra, Hfrf, Hcw, Hss, Hfrl.
+    split; [exists ak, wn; rewrite RO, A1; reflexivity|].
+    specialize (A11 E5). repeat split; congruence.
   - rewrite trimmed_0 in WL.
-    match goal with |- context [resendSegment ?x] => set (t4 := x) end.
-    destruct (resendSegment_spec t4) as (RC1 & _ & _ & RO).
-    assert (W4 : wsent (SN t4) ++ wunsent (SN t4) = w :: rest).
-    { subst t4. cbn. rewrite WS1, WU1. exact WL. }
-    rewrite W4 in RO. destruct RO as (ak & wn & RO).
-    coref RC1. subst t4. cbn in *.
+    rewrite ackPart_noadv by (rewrite E1, E2; exact EI).
+    destruct (resendSegment_spec (t <| SN := s3 |>)) as (RC1 & _ & _ & RO).
+    cbn [SN out set] in RO. rewrite E3, E4, WL in RO. destruct RO as (ak & wn & RO).
+    coref RC1. cbn in Hfra, Hfrf, Hcw, Hss, Hfrl.
     split; [exists ak, wn; exact RO|]. repeat split; congruence.
 Qed.
 
@@ -548,19 +650,20 @@ Proof.
   rewrite (step_processed t sg newRto P). cbv zeta.
   set (t0 := t <| out := [] |>). set (tr := rcvHandle t0 sg).
   destruct (rcvHandle_quiet t0 sg) as (QC & _ & pre & QO & QD). fold tr in QC, QO.
-  change (out t0) with (@nil frame) in QO. cbn [app] in QO.
+  change (out t0) with (@nil frame) in QO. cbn [app] in QO. clearbody tr.
   coref QC. change (SN t0) with (SN t) in *.
   rewrite sndHandle_preSend.
   pose proof (preSend_partial tr sg (wndOf t sg) newRto w rest) as PT. cbv zeta in PT.
-  unfold newlyAcked in PT.
+  unfold newlyAcked in *.
   rewrite Hfra, Hun, Hnx, Hfrl, Hwse, Hwun, Hwn, Hfrf, Hcw, Hss in PT.
   specialize (PT F IR L SL W NF WL).
-  set (t5 := preSend tr sg (wndOf t sg) newRto) in *.
+  set (t5 := preSend tr sg (wndOf t sg) newRto) in *. clearbody t5.
   destruct PT as ((ak & wn & O5) & P1 & P2 & P3 & P4 & P5).
   pose proof (sendData_spec t5) as SD. cbv zeta in SD.
-  destruct SD as (LF & _ & _ & _ & TS & fs & OF & _). set (t6 := sendData t5 false) in *.
-  match goal with |- context [loopExit ?x] => destruct (tail_quiet t6) as (TC & _ & post & TO & _); set (t7 := loopExit x) in * end.
-  loopfT LF. clear Hts. coref TC.
+  destruct SD as (LF & _ & _ & _ & TS & fs & OF & _). set (t6 := sendData t5 false) in *. clearbody t6.
+  destruct (tail_quiet t6) as (TC & _ & post & TO & _).
+  match goal with |- context [loopExit ?x] => set (t7 := loopExit x) in * end. clearbody t7.
+  loopfT LF. coref TC.
   split.
   - exists pre, (fs ++ post), ak, wn. split; [|exact QD].
     rewrite TO, OF, O5, QO. rewrite <- !app_assoc. reflexivity.
@@ -582,50 +685,27 @@ Lemma preSend_leave t sg wnd newRto :
   ssthresh (SN t) <= cwnd (SN t5) <= ssthresh (SN t) + caCount (SN t) / ssthresh (SN t) + ackedSegs (SN t) sg.
 Proof.
   intros F IR L SS CA. cbv zeta. unfold preSend. cbv zeta.
-  set (clampRto := if newRto <? minRTO then minRTO else newRto).
-  set (s1 := if negb (tsOk t) && lessThan (rttSeq (SN t)) (s_ack sg)
-             then (SN t) <| rto := clampRto |> <| rttSeq := sndNxt (SN t) |> else SN t).
-  assert (S1 : frActive s1 = true /\ sndUna s1 = sndUna (SN t) /\ sndNxt s1 = sndNxt (SN t) /\
-               frLast s1 = frLast (SN t) /\ caCount s1 = caCount (SN t) /\
-               wsent s1 = wsent (SN t) /\ wunsent s1 = wunsent (SN t) /\ 
-               ssthresh s1 = ssthresh (SN t)).
-  { subst s1. destruct (negb (tsOk t) && lessThan (rttSeq (SN t)) (s_ack sg)); cbn; auto 12. }
-  destruct S1 as (F1 & U1 & N1 & L1 & C1 & WS1 & WU1 & SS1).
-  assert (CD : checkDuplicateAck s1 (s_ack sg) (plogicalLen (s_flags sg) (s_data sg)) wnd = (leaveFastRecovery s1, false)).
-  { unfold checkDuplicateAck. rewrite F1, U1, N1, IR, L1, L. reflexivity. }
-  rewrite CD. cbn [sndUna sndNxt set leaveFastRecovery].
+  pose proof (hs1_same t sg newRto) as HS. rttf HS. set (s1 := hs1 t sg newRto) in *. clearbody s1.
+  assert (CD : checkDuplicateAck s1 (s_ack sg) (seglen sg) wnd = (leaveFastRecovery s1, false)).
+  { unfold checkDuplicateAck. rewrite Rfra, F, Run, Rnx, IR, Rfrl, L. reflexivity. }
+  rewrite CD. cbn [fst snd].
+  set (s3 := (leaveFastRecovery s1) <| sndWnd := wnd |>).
+  assert (E3 : sndUna s3 = sndUna (SN t) /\ sndNxt s3 = sndNxt (SN t) /\ wsent s3 = wsent (SN t) /\
+               wunsent s3 = wunsent (SN t) /\ frActive s3 = false /\ dupAck s3 = 0 /\
+               cwnd s3 = ssthresh (SN t) /\ ssthresh s3 = ssthresh (SN t) /\ caCount s3 = caCount (SN t)).
+  { subst s3. cbn. repeat split; congruence. }
+  destruct E3 as (E1 & E2 & E3 & E4 & E5 & E6 & E7 & E8 & E9). clearbody s3.
   assert (D0 : 0 <= caCount (SN t) / ssthresh (SN t)) by (apply Z.div_pos; lia).
-  unfold ackedSegs. rewrite U1, N1.
+  unfold ackedSegs.
   destruct (inRange (u32 (s_ack sg - 1)) (sndUna (SN t)) (sndNxt (SN t))) eqn:EI.
-  2:{ cbn. rewrite SS1. repeat split; lia. }
-  match goal with |- context [ackLoop _ (wsent ?s5) _ _ _] => set (s5 := s5) end.
-  assert (W5 : wsent s5 = wsent (SN t) /\ wunsent s5 = wunsent (SN t) /\ sndUna s5 = sndUna (SN t) /\
-               frActive s5 = false /\ cwnd s5 = ssthresh (SN t) /\ caCount s5 = caCount (SN t) /\
-               ssthresh s5 = ssthresh (SN t) /\ dupAck s5 = 0).
-  { subst s5. destruct (tsOk t && s_tsecr sg); cbn; auto 12. }
-  destruct W5 as (W5 & X5 & U5 & F5 & C5 & CA5 & SS5 & D5). rewrite W5, X5, U5.
-  pose proof (ackLoop_removed (S (length (wsent (SN t)) + length (wunsent (SN t)))) (wsent (SN t)) (wunsent (SN t))
-                (size (sndUna (SN t)) (s_ack sg)) 0 ltac:(lia)
-                ltac:(unfold size, u32; apply Z.mod_pos_bound; lia)) as AR.
-  destruct (ackLoop (S (length (wsent (SN t)) + length (wunsent (SN t)))) (wsent (SN t)) (wunsent (SN t))
-              (size (sndUna (SN t)) (s_ack sg)) 0) as [[sent' unsent'] removed].
-  cbn [snd] in AR. rewrite Z.add_0_l in AR. rewrite <- AR.
-  pose proof (covered_nonneg (wsent (SN t) ++ wunsent (SN t)) (size (sndUna (SN t)) (s_ack sg))) as CN.
-  rewrite <- AR in CN.
-  set (s6 := s5 <| sndUna := s_ack sg |> <| wsent := sent' |> <| wunsent := unsent' |>
-                <| outstanding := outstanding s5 - removed |>).
-  assert (E6 : frActive s6 = false /\ cwnd s6 = ssthresh (SN t) /\ caCount s6 = caCount (SN t) /\
-               ssthresh s6 = ssthresh (SN t) /\ dupAck s6 = 0) by (subst s6; cbn; auto).
-  destruct E6 as (F6 & C6 & CA6 & SS6 & D6).
-  rewrite F6.
-  pose proof (renoUpdate_pot s6 removed) as RP. cbv zeta in RP.
-  destruct RP as (R1 & R2 & R3 & R4 & R5 & R6 & R7 & R8); try lia.
-  unfold psi in R3. rewrite C6, CA6 in R3.
-  assert (D7 : dupAck (renoUpdate s6 removed) = 0).
-  { unfold renoUpdate, renoCA. cbv zeta.
-    repeat match goal with |- context [if ?c then _ else _] => destruct c end; cbn; exact D6. }
-  assert (0 <= caCount (renoUpdate s6 removed) / cwnd (renoUpdate s6 removed)) by (apply Z.div_pos; lia).
-  cbn [SN set]. destruct (outstanding (renoUpdate s6 removed) <? 0); cbn; repeat split; try congruence; try lia.
+  - pose proof (ackPart_adv t s3 sg newRto) as AP. cbv zeta in AP.
+    rewrite E1, E2 in AP. specialize (AP EI).
+    set (t4 := ackPart t s3 sg newRto) in *. clearbody t4.
+    destruct AP as (A1 & A2 & A3 & A4 & A5 & A6 & A7 & A8 & A9 & A10 & _ & A12).
+    specialize (A12 E5 ltac:(lia) ltac:(lia) ltac:(lia)). rewrite E3, E4, E7, E9 in A12.
+    repeat split; try congruence; lia.
+  - rewrite ackPart_noadv by (rewrite E1, E2; exact EI). cbn [SN set].
+    repeat split; try congruence; lia.
 Qed.
 
 (* recovery ends on the first ACK beyond fr.last: cwnd deflates to ssthresh (then grows by the
@@ -639,18 +719,19 @@ Proof.
   intros (P & F & IR & L) SS CA. cbv zeta.
   rewrite (step_processed t sg newRto P). cbv zeta.
   set (t0 := t <| out := [] |>). set (tr := rcvHandle t0 sg).
-  destruct (rcvHandle_quiet t0 sg) as (QC & _). fold tr in QC.
+  destruct (rcvHandle_quiet t0 sg) as (QC & _). fold tr in QC. clearbody tr.
   coref QC. change (SN t0) with (SN t) in *.
   rewrite sndHandle_preSend.
   pose proof (preSend_leave tr sg (wndOf t sg) newRto) as PT. cbv zeta in PT. unfold ackedSegs in *.
   rewrite Hfra, Hun, Hnx, Hfrl, Hwse, Hwun, Hca, Hss in PT.
   specialize (PT F IR L SS CA).
-  set (t5 := preSend tr sg (wndOf t sg) newRto) in *.
+  set (t5 := preSend tr sg (wndOf t sg) newRto) in *. clearbody t5.
   destruct PT as (P1 & P2 & P3 & P4).
   pose proof (sendData_spec t5) as SD. cbv zeta in SD.
-  destruct SD as (LF & _). set (t6 := sendData t5 false) in *.
-  match goal with |- context [loopExit ?x] => destruct (tail_quiet t6) as (TC & _); set (t7 := loopExit x) in * end.
-  loopfT LF. clear Hts. coref TC.
+  destruct SD as (LF & _). set (t6 := sendData t5 false) in *. clearbody t6.
+  destruct (tail_quiet t6) as (TC & _).
+  match goal with |- context [loopExit ?x] => set (t7 := loopExit x) in * end. clearbody t7.
+  loopfT LF. coref TC.
   repeat split; try congruence; lia.
 Qed.
 
@@ -665,85 +746,54 @@ Lemma fast_retransmit_does_not_rearm t sg newRto :
   tstate (SN (preSend (rcvHandle (t <| out := [] |>) sg) sg (wndOf t sg) newRto)) = tEnabled /\
   tstate (SN (fst (step t (ESeg sg newRto)))) = tEnabled.
 Proof.
-  intros TD TE. 
-  destruct (wsent (SN t) ++ wunsent (SN t)) as [|w rest] eqn:WL.
-  - (* empty write list: same computation, nothing to resend *)
-    destruct TD as (P & F & D & N & L & A & SL & W).
-    set (t0 := t <| out := [] |>). set (tr := rcvHandle t0 sg).
-    destruct (rcvHandle_quiet t0 sg) as (QC & _). fold tr in QC.
-    coref QC. change (SN t0) with (SN t) in *.
-    assert (T5 : tstate (SN (preSend tr sg (wndOf t sg) newRto)) = tEnabled).
-    { unfold preSend. cbv zeta.
-      set (clampRto := if newRto <? minRTO then minRTO else newRto).
-      set (s1 := if negb (tsOk tr) && lessThan (rttSeq (SN tr)) (s_ack sg)
-                 then (SN tr) <| rto := clampRto |> <| rttSeq := sndNxt (SN tr) |> else SN tr).
-      assert (S1 : frActive s1 = false /\ dupAck s1 = 2 /\ sndUna s1 = sndUna (SN t) /\ sndNxt s1 = sndNxt (SN t) /\
-               frLast s1 = frLast (SN t) /\ sndWnd s1 = sndWnd (SN t) /\ tstate s1 = tEnabled).
-      { subst s1. destruct (negb (tsOk tr) && lessThan (rttSeq (SN tr)) (s_ack sg)); cbn; repeat split; congruence. }
-      destruct S1 as (F1 & D1 & U1 & N1 & L1 & W1 & T1).
-      fold (seglen sg). rewrite SL.
-      rewrite (cda_third s1 (s_ack sg) (wndOf t sg)); try congruence.
-      cbn [sndUna sndNxt set enterFastRecovery reduceSsthresh].
-      match goal with |- context [inRange ?a ?b ?c] =>
-        replace (inRange a b c) with false
-          by (symmetry; replace b with (s_ack sg) by (cbn; congruence); apply inRange_self_false) end.
-      match goal with |- context [resendSegment ?x] => destruct (resendSegment_spec x) as (RC1 & _) end.
-      coref RC1. cbn in Hts0. rewrite Hts0. exact T1. }
-    split; [exact T5|].
-    rewrite (step_processed t sg newRto P). cbv zeta. fold t0. fold tr. rewrite sndHandle_preSend.
-    set (t5 := preSend tr sg (wndOf t sg) newRto) in *.
-    pose proof (sendData_spec t5) as SD. cbv zeta in SD.
-    destruct SD as (_ & _ & _ & _ & TS & _). set (t6 := sendData t5 false) in *.
-    match goal with |- context [loopExit ?x] => destruct (tail_quiet t6) as (TC & _); set (t7 := loopExit x) in * end.
-    coref TC. rewrite Hts0, TS, T5. reflexivity.
-  - pose proof (fast_retransmit t sg newRto w rest TD WL) as FR. cbv zeta in FR.
-    destruct FR as (_ & _ & _ & _ & _ & _ & _ & _ & FR). split; [|exact (FR TE)].
-    destruct TD as (P & F & D & N & L & A & SL & W).
-    set (t0 := t <| out := [] |>). set (tr := rcvHandle t0 sg).
-    destruct (rcvHandle_quiet t0 sg) as (QC & _). fold tr in QC.
-    coref QC. change (SN t0) with (SN t) in *.
-    pose proof (preSend_third tr sg (wndOf t sg) newRto w rest) as PT. cbv zeta in PT.
-    rewrite Hfra, Hdup, Hun, Hnx, Hfrl, Hwse, Hwun, Hout, Hts in PT.
-    specialize (PT F D N L A SL W WL).
-    destruct PT as (_ & _ & _ & _ & _ & _ & _ & _ & _ & _ & P10 & _). congruence.
+  intros (P & F & D & N & L & A & SL & W) TE.
+  rewrite (step_processed t sg newRto P). cbv zeta.
+  set (t0 := t <| out := [] |>). set (tr := rcvHandle t0 sg).
+  destruct (rcvHandle_quiet t0 sg) as (QC & _). fold tr in QC. clearbody tr.
+  coref QC. change (SN t0) with (SN t) in *.
+  rewrite sndHandle_preSend.
+  pose proof (preSend_third tr sg (wndOf t sg) newRto) as PT. cbv zeta in PT.
+  rewrite Hfra, Hdup, Hun, Hnx, Hfrl, Hwn, Hts in PT.
+  specialize (PT F D N L A SL W).
+  set (t5 := preSend tr sg (wndOf t sg) newRto) in *. clearbody t5.
+  destruct PT as (_ & _ & _ & _ & _ & _ & _ & _ & _ & _ & P10 & _).
+  assert (T5 : tstate (SN t5) = tEnabled) by congruence.
+  split; [exact T5|].
+  pose proof (sendData_spec t5) as SD. cbv zeta in SD.
+  destruct SD as (_ & _ & _ & _ & TS & _). set (t6 := sendData t5 false) in *. clearbody t6.
+  destruct (tail_quiet t6) as (TC & _).
+  match goal with |- context [loopExit ?x] => set (t7 := loopExit x) in * end. clearbody t7.
+  coref TC. rewrite Hts0, TS, T5. reflexivity.
 Qed.
 
-(* contrast: an ACK that acknowledges new data DOES pass through "timer disabled", so that
-   sendData re-arms it with a fresh full rto (resendTimer.disable() in handleRcvdSegment) *)
+Lemma cda_keeps s ack sl wnd :
+  let r := checkDuplicateAck s ack sl wnd in
+  sndUna (fst r) = sndUna s /\ sndNxt (fst r) = sndNxt s /\ tstate (fst r) = tstate s.
+Proof.
+  cbv zeta. unfold checkDuplicateAck.
+  repeat match goal with |- context [if ?c then _ else _] => destruct c end; cbn; auto.
+Qed.
+
+(* contrast: an ACK that acknowledges new data DOES pass through "timer not enabled"
+   (resendTimer.disable() in handleRcvdSegment), so that sendData re-arms it with a fresh rto *)
 Lemma new_ack_disables_timer t sg wnd newRto :
   inRange (u32 (s_ack sg - 1)) (sndUna (SN t)) (sndNxt (SN t)) = true ->
   tstate (SN t) = tEnabled ->
   tstate (SN (preSend t sg wnd newRto)) = tOrphaned.
 Proof.
   intros IR TE. unfold preSend. cbv zeta.
-  set (clampRto := if newRto <? minRTO then minRTO else newRto).
-  set (s1 := if negb (tsOk t) && lessThan (rttSeq (SN t)) (s_ack sg)
-             then (SN t) <| rto := clampRto |> <| rttSeq := sndNxt (SN t) |> else SN t).
-  assert (S1 : sndUna s1 = sndUna (SN t) /\ sndNxt s1 = sndNxt (SN t) /\ tstate s1 = tEnabled).
-  { subst s1. destruct (negb (tsOk t) && lessThan (rttSeq (SN t)) (s_ack sg)); cbn; auto. }
-  destruct S1 as (U1 & N1 & T1).
-  pose proof (cda_CC_fields s1 sg wnd) as CF. cbv zeta in CF. fold (seglen sg).
-  destruct (checkDuplicateAck s1 (s_ack sg) (seglen sg) wnd) as [s2 rtx]. cbn [fst] in CF.
-  destruct CF as (U2 & N2 & T2).
-  cbn [sndUna sndNxt set].
-  change (sndUna (s2 <| sndWnd := wnd |>)) with (sndUna s2).
-  change (sndNxt (s2 <| sndWnd := wnd |>)) with (sndNxt s2).
-  rewrite U2, N2, U1, N1, IR.
-  match goal with |- context [ackLoop ?a ?b ?c ?d ?e] => destruct (ackLoop a b c d e) as [[sent' unsent'] removed] end.
-  assert (TT : forall t4, tstate (SN t4) = tOrphaned -> tstate (SN (if rtx then resendSegment t4 else t4)) = tOrphaned).
-  { intros t4 H4. destruct rtx; [|exact H4]. destruct (resendSegment_spec t4) as (RC1 & _). coref RC1.
-    cbn in Hts. congruence. }
-  apply TT. cbn [SN set].
-  assert (T5 : forall s7 : sndr, tstate s7 = tOrphaned ->
-            tstate (if outstanding s7 <? 0 then s7 <| outstanding := 0 |> else s7) = tOrphaned).
-  { intros s7 H7. destruct (outstanding s7 <? 0); cbn; exact H7. }
-  apply T5.
-  assert (T6 : forall s6 : sndr, tstate s6 = tOrphaned ->
-            tstate (if frActive s6 then s6 else renoUpdate s6 removed) = tOrphaned).
-  { intros s6 H6. destruct (frActive s6); [exact H6|].
-    unfold renoUpdate, renoCA. cbv zeta.
-    repeat match goal with |- context [if ?c then _ else _] => destruct c end; cbn; exact H6. }
-  apply T6. cbn [tstate set].
-  change (tstate (s2 <| sndWnd := wnd |>)) with (tstate s2). rewrite T2, T1.
-  destruct (tsOk t && s_tsecr sg); reflexivity.
+  pose proof (hs1_same t sg newRto) as HS. rttf HS. set (s1 := hs1 t sg newRto) in *. clearbody s1.
+  pose proof (cda_keeps s1 (s_ack sg) (seglen sg) wnd) as CK. cbv zeta in CK.
+  destruct (checkDuplicateAck s1 (s_ack sg) (seglen sg) wnd) as [s2 rtx]. cbn [fst snd] in *.
+  destruct CK as (K1 & K2 & K3).
+  pose proof (ackPart_adv t (s2 <| sndWnd := wnd |>) sg newRto) as AP. cbv zeta in AP.
+  change (sndUna (s2 <| sndWnd := wnd |>)) with (sndUna s2) in AP.
+  change (sndNxt (s2 <| sndWnd := wnd |>)) with (sndNxt s2) in AP.
+  change (tstate (s2 <| sndWnd := wnd |>)) with (tstate s2) in AP.
+  rewrite K1, K2, K3, Run, Rnx, Rts, TE in AP. specialize (AP IR).
+  set (t4 := ackPart t (s2 <| sndWnd := wnd |>) sg newRto) in *. clearbody t4.
+  destruct AP as (_ & _ & _ & _ & _ & A6 & _).
+  change (tEnabled =? tDisabled) with false in A6. cbv iota in A6.
+  destruct rtx; [|exact A6].
+  destruct (resendSegment_spec t4) as (RC1 & _). coref RC1. cbn in Hts. congruence.
 Qed.
